@@ -474,6 +474,36 @@ impl<Db: Database> Storage<Db> {
                 final(self).dependency_stack.0@.last().dependencies@.len() > 0
                 && final(self).dependency_stack.0@.last().dependencies@.last().node_to == NodeKind::Source(key), //@O C01.O-7b_read_of_an_absent_source_is_recorded
 //@end
+// The two PUBLIC readers (what every memoized function calls): thin wrappers over get_impl; their
+// contracts carry get_impl's "every read is recorded" to the API a user of pico actually sees.
+//@fn rel=crates/pico/src/database.rs name=get within="impl<Db: Database> Storage<Db>" vis=pub ret=r serves=C01
+//@hsub "&self," => "&mut self,"
+//@contract
+        requires old(self).internal.wf(),
+            // "SourceId should not be used after the corresponding source node is removed."
+            old(self).internal.has(id.key),
+        ensures
+            final(self).internal == old(self).internal,
+            old(self).dependency_stack.0@.len() > 0 ==>
+                recorded(final(self).dependency_stack.0@.last(), old(self).dependency_stack.0@.last(),
+                    Dependency { node_to: NodeKind::Source(id.key), time_verified_or_updated: old(self).internal.current_epoch },
+                    old(self).internal.node(id.key).time_updated), //@O C01.O-7_public_get_records_the_read
+//@end
+//@fn rel=crates/pico/src/database.rs name=get_singleton within="impl<Db: Database> Storage<Db>" vis=pub ret=r serves=C01
+//@hsub "&self" => "&mut self"
+//@contract
+        requires old(self).internal.wf(),
+        ensures
+            final(self).internal == old(self).internal,
+            (r is Some) == old(self).internal.has(T::singleton_key_spec()),
+            old(self).internal.has(T::singleton_key_spec()) && old(self).dependency_stack.0@.len() > 0 ==>
+                recorded(final(self).dependency_stack.0@.last(), old(self).dependency_stack.0@.last(),
+                    Dependency { node_to: NodeKind::Source(T::singleton_key_spec()), time_verified_or_updated: old(self).internal.current_epoch },
+                    old(self).internal.node(T::singleton_key_spec()).time_updated), //@O C01.O-7_public_get_singleton_records_the_read
+            // (the ABSENT read is deliberately not restated here: at this call site it would follow
+            // from get_impl's clause C01.O-7b, which FAILS on get_impl's own body - known finding
+            // F-C01a - and a clause discharged from a failed callee contract proves nothing)
+//@end
     // assumed: panics when a memoized function is running, no effect otherwise
     #[verifier::external_body]
     fn assert_empty_dependency_stack(&self) { unimplemented!() }
